@@ -14,6 +14,9 @@
 (* memo key alone - not of the hedger object used, nor of what it computed  *)
 (* before (HistoryIndependent).  compute_hedge is modelled with its         *)
 (* internal steps ResetPrev / Run so that the carried prev_output is        *)
+(* explicit; add_clause changes a derivative's payoff, fit() the parameters  *)
+(* of one hedger.                                                            *)
+(* (carried prev_output:                                                     *)
 (* explicit: Run reads the prev_output left by ResetPrev, never a stale one.*)
 EXTENDS Integers, Sequences, FiniteSets, TLC, Json
 
@@ -29,16 +32,20 @@ VARIABLES ver,        \* ver[p]: version of p's buffers (0 = never simulated)
           prev,       \* prev[h]: [n, src] state carried by the hedger: shape and provenance ("zeros" or a result id)
           memo,       \* function from keys to result ids
           nres,       \* next fresh result id
+          cver,       \* cver[d]: number of clauses registered on derivative d (its payoff changes with every clause)
+          pnext,      \* next fresh parameter version
           hist
-vars == <<ver, npaths, next, pver, prev, memo, nres, hist>>
+vars == <<ver, npaths, next, pver, prev, memo, nres, cver, pnext, hist>>
 
 ReadOnlyOps == {"Payoff", "Features", "ListedSpot", "ComputeHedge", "ComputePortfolio", "ComputePL", "Criterion"}
-Key(op, h, d) == <<op, IF h = "-" THEN 0 ELSE pver[h], d, ver[UL[d]]>>
+\* what a result may depend on: the operation, the hedger's PARAMETERS (not the hedger object), the derivative with its
+\* clauses, and the versions of the buffers it reads
+Key(op, h, d) == <<op, IF h = "-" THEN 0 ELSE pver[h], d, ver[UL[d]], cver[d]>>
 
 Init == /\ ver = [p \in Prims |-> 0] /\ npaths = [p \in Prims |-> 0] /\ next = 1
         /\ pver = [h \in Hedgers |-> 1]           \* all hedgers start from the same parameters (a clone is "fresh")
         /\ prev = [h \in Hedgers |-> [n |-> 0, src |-> "none"]]
-        /\ memo = <<>> /\ nres = 1 /\ hist = <<>>
+        /\ memo = <<>> /\ nres = 1 /\ cver = [d \in Derivs |-> 0] /\ pnext = 2 /\ hist = <<>>
 
 Room == Len(hist) < MaxDepth
 Lookup(k) == IF k \in DOMAIN memo THEN memo[k] ELSE nres
@@ -46,21 +53,21 @@ Lookup(k) == IF k \in DOMAIN memo THEN memo[k] ELSE nres
 Remember(k, id) == /\ (k \in DOMAIN memo => id = memo[k])
                    /\ memo' = IF k \in DOMAIN memo THEN memo ELSE memo @@ (k :> id)
                    /\ nres' = IF id >= nres THEN id + 1 ELSE nres
-Log(e) == hist' = Append(hist, e @@ [ver |-> ver', npaths |-> npaths'])
+Log(e) == hist' = Append(hist, e @@ [ver |-> ver', npaths |-> npaths', cv |-> cver'[e.d], pv |-> IF e.h = "-" THEN 0 ELSE pver'[e.h]])
 
 \* v: the version of the freshly simulated buffers - never seen before
 Simulate(d, n, v) ==
   /\ Room /\ v >= next
   /\ ver' = [ver EXCEPT ![UL[d]] = v] /\ next' = v + 1
   /\ npaths' = [npaths EXCEPT ![UL[d]] = n]
-  /\ UNCHANGED <<pver, prev, memo, nres>>
+  /\ UNCHANGED <<pver, prev, memo, nres, cver, pnext>>
   /\ Log([op |-> "Simulate", h |-> "-", d |-> d, n |-> n, res |-> 0])
 
 \* a read-only computation that does not involve a hedger
 Read(op, d, id) ==
   /\ Room /\ ver[UL[d]] # 0 /\ op \in {"Payoff", "Features", "ListedSpot"}
   /\ Remember(Key(op, "-", d), id)
-  /\ UNCHANGED <<ver, npaths, next, pver, prev>>
+  /\ UNCHANGED <<ver, npaths, next, pver, prev, cver, pnext>>
   /\ Log([op |-> op, h |-> "-", d |-> d, n |-> 0, res |-> id])
 
 \* compute_hedge / compute_portfolio / compute_pl: ResetPrev then Run, folded into one atomic public call
@@ -70,7 +77,7 @@ Compute(op, h, d, id) ==
          k == Key(op, h, d)
      IN  /\ Remember(k, id)
          /\ prev' = [prev EXCEPT ![h] = IF StateDep[h] THEN [n |-> prev0.n, src |-> "own-output"] ELSE [n |-> prev0.n, src |-> "whole-output"]]
-  /\ UNCHANGED <<ver, npaths, next, pver>>
+  /\ UNCHANGED <<ver, npaths, next, pver, cver, pnext>>
   /\ Log([op |-> op, h |-> h, d |-> d, n |-> 0, res |-> id])
 
 \* compute_loss / price: a fresh simulation followed by a read-only computation on it
@@ -79,10 +86,29 @@ SimCompute(op, h, d, n, v) ==
   /\ ver' = [ver EXCEPT ![UL[d]] = v] /\ next' = v + 1
   /\ npaths' = [npaths EXCEPT ![UL[d]] = n]
   /\ prev' = [prev EXCEPT ![h] = [n |-> n, src |-> IF StateDep[h] THEN "own-output" ELSE "whole-output"]]
-  /\ UNCHANGED <<pver, memo, nres>>
+  /\ UNCHANGED <<pver, memo, nres, cver, pnext>>
   /\ Log([op |-> op, h |-> h, d |-> d, n |-> n, res |-> 0])
 
+\* add_clause: changes what the derivative pays, touches no market data and no hedger
+AddClause(d) ==
+  /\ Room /\ cver[d] < 2
+  /\ cver' = [cver EXCEPT ![d] = cver[d] + 1]
+  /\ UNCHANGED <<ver, npaths, next, pver, prev, memo, nres, pnext>>
+  /\ Log([op |-> "AddClause", h |-> "-", d |-> d, n |-> 0, res |-> 0])
+
+\* fit for one epoch: a fresh simulation and one optimiser step - the parameters of THIS hedger (only) get a new version
+Fit(h, d, n, v, pv) ==
+  /\ Room /\ v >= next /\ pv >= pnext
+  /\ ver' = [ver EXCEPT ![UL[d]] = v] /\ next' = v + 1
+  /\ npaths' = [npaths EXCEPT ![UL[d]] = n]
+  /\ pver' = [pver EXCEPT ![h] = pv] /\ pnext' = pv + 1
+  /\ prev' = [prev EXCEPT ![h] = [n |-> n, src |-> IF StateDep[h] THEN "own-output" ELSE "whole-output"]]
+  /\ UNCHANGED <<memo, nres, cver>>
+  /\ Log([op |-> "Fit", h |-> h, d |-> d, n |-> n, res |-> 0])
+
 Next == \/ \E d \in Derivs, n \in Paths : Simulate(d, n, next)
+        \/ \E d \in Derivs : AddClause(d)
+        \/ \E d \in Derivs, h \in Hedgers, n \in Paths : Fit(h, d, n, next, pnext)
         \/ \E d \in Derivs, op \in {"Payoff", "Features", "ListedSpot"} : Read(op, d, Lookup(Key(op, "-", d)))
         \/ \E d \in Derivs, h \in Hedgers, op \in {"ComputeHedge", "ComputePortfolio", "ComputePL"} : Compute(op, h, d, Lookup(Key(op, h, d)))
         \/ \E d \in Derivs, h \in Hedgers, n \in Paths, op \in {"ComputeLoss", "Price"} : SimCompute(op, h, d, n, next)
@@ -92,13 +118,15 @@ Spec == Init /\ [][Next]_vars
 Last == hist'[Len(hist')]
 Purity   == [][(hist' # hist /\ Last.op \in ReadOnlyOps) => (ver' = ver /\ npaths' = npaths)]_vars
 Locality == [][(hist' # hist) => \A p \in Prims : p # UL[Last.d] => (ver'[p] = ver[p] /\ npaths'[p] = npaths[p])]_vars
-FreshOnSimulate == [][(hist' # hist /\ Last.op \in {"Simulate", "ComputeLoss", "Price"}) => ver'[UL[Last.d]] > ver[UL[Last.d]]]_vars
+FreshOnSimulate == [][(hist' # hist /\ Last.op \in {"Simulate", "ComputeLoss", "Price", "Fit"}) => ver'[UL[Last.d]] > ver[UL[Last.d]]]_vars
+\* parameters change only in fit(), and only those of the hedger that is fitted
+ParamsChangeOnlyInFit == [][\A h \in Hedgers : pver'[h] # pver[h] => (hist' # hist /\ Last.op = "Fit" /\ Last.h = h)]_vars
 \* results are a function of the key: two hedgers with the same parameters agree, whatever they computed before
 HistoryIndependent ==
   \A i, j \in 1..Len(hist) :
     (/\ hist[i].op = hist[j].op /\ hist[i].op \in ReadOnlyOps
      /\ hist[i].d = hist[j].d /\ hist[i].ver[UL[hist[i].d]] = hist[j].ver[UL[hist[j].d]]
-     /\ (hist[i].h = "-" \/ pver[hist[i].h] = pver[hist[j].h]))
+     /\ hist[i].cv = hist[j].cv /\ hist[i].pv = hist[j].pv)
     => hist[i].res = hist[j].res
 \* the state a state-dependent hedger carries always has the shape of its last evaluation (never read across calls)
 CarriedStateIsOwn == \A h \in Hedgers : prev[h].src \in {"none", "own-output", "whole-output"}
